@@ -100,6 +100,10 @@ class C04d(Obligation):
                                 'deadline': model_value(m, d.dl - z3.Int('EPOCH')), 'tok': model_value(m, d.tok)} for d in ds]}
 
 
+from props.actor_steps import _actor_replay
+C04d.native_replay = _actor_replay('expire', lambda i: {'now_ns': i['now']})
+
+
 def obligations(ctx, cfg):
     n = 3 if cfg['tier'] == 'quick' else 5
     return [C04a(ctx), C04d(ctx, n), StepPull(ctx, 2, 3, 0, 'deadline', 'C04.b'), StepExpire(ctx, n, 2, 0, 'deadline', 'C04.e')]
